@@ -1711,4 +1711,582 @@ theorem TRepr.bitLen_spec (W : Nat) (m : TRepr) (hm : m.Canon W) :
       rw [Nat.mul_comm, ← Nat.mul_succ]; congr 1; omega
     omega
 
+
+-- ================================================================== set_bit / clear_bit
+
+theorem or_two_pow_of_lt (v n : Nat) (h : v < 2 ^ n) : v ||| 2 ^ n = v + 2 ^ n := by
+  have := Nat.two_pow_add_eq_or_of_lt h 1
+  rw [Nat.mul_one] at this
+  rw [Nat.or_comm, ← this, Nat.add_comm]
+
+theorem natAndNot_two_pow_of_lt (v n : Nat) (h : v < 2 ^ n) : natAndNot v (2 ^ n) = v := by
+  apply Nat.eq_of_testBit_eq; intro i
+  rw [testBit_natAndNot, Nat.testBit_two_pow]
+  by_cases hi : n = i
+  · subst hi; simp [Nat.testBit_lt_two_pow h]
+  · simp [hi]
+
+/-- value of a list with one word replaced, relative to the split at that word -/
+theorem val_set (W : Nat) (ws : List Nat) (k x : Nat) (hk : k < ws.length) :
+    val W (ws.set k x) = val W (ws.take k) + 2 ^ (W * k) * (x + 2 ^ W * val W (ws.drop (k + 1))) ∧
+    val W ws = val W (ws.take k) + 2 ^ (W * k) * (ws.getD k 0 + 2 ^ W * val W (ws.drop (k + 1))) := by
+  have ⟨h1, h2, h3⟩ := set_take_drop ws k x hk
+  have hl : (ws.take k).length = k := by simp [List.length_take, Nat.min_eq_left (Nat.le_of_lt hk)]
+  constructor
+  · have := val_take_add_drop W (ws.set k x) k
+    rw [h1, h2, hl, val_cons] at this
+    exact this
+  · have := val_take_add_drop W ws k
+    rw [h3, hl, val_cons] at this
+    exact this
+
+theorem two_pow_split (W n : Nat) : 2 ^ n = 0 + 2 ^ (W * (n / W)) * (2 ^ (n % W) + 2 ^ W * 0) := by
+  rw [Nat.zero_add, Nat.mul_zero, Nat.add_zero, pow_div_mod]
+
+/-- `set_bit(n)`: the result is `x | 2^n`, i.e. bit `n` set and all other bits unchanged -/
+theorem TRepr.setBit_spec (W : Nat) (hW : 1 ≤ W) (m : TRepr) (n : Nat) (hm : m.Canon W) :
+    (m.setBit W n).value W = m.value W ||| 2 ^ n ∧ (m.setBit W n).Canon W := by
+  have hs : n % W < W := Nat.mod_lt _ (by omega)
+  have hbit : 2 ^ (n % W) < 2 ^ W := Nat.pow_lt_pow_right (by omega) hs
+  cases m with
+  | small d =>
+    have hd : d < 2 ^ (2 * W) := hm
+    simp only [TRepr.setBit]
+    split
+    · rename_i h
+      exact ⟨rfl, Nat.or_lt_two_pow hd (Nat.pow_lt_pow_right (by omega) h)⟩
+    · rename_i h
+      have hq : 2 ≤ n / W := by rw [Nat.le_div_iff_mul_le (by omega)]; omega
+      have hle : 2 ^ (2 * W) ≤ 2 ^ n := Nat.pow_le_pow_right (by omega) (by omega)
+      refine ⟨?_, fromBuffer_canon W _ (IsWords.append (IsWords.append (isWords_dword W d hd)
+        (isWords_replicate W _ 0 (Nat.two_pow_pos W))) (isWords_singleton W _ hbit))⟩
+      rw [fromBuffer_value, List.append_assoc, val_append, val_dword, val_replicate_append]
+      simp only [List.length_cons, List.length_nil, val_cons, val_nil, Nat.mul_zero, Nat.add_zero,
+        TRepr.value_small]
+      rw [or_two_pow_of_lt d n (by omega), ← pow_div_mod W n]
+      have : W * (n / W) = W * (0 + 1 + 1) + W * (n / W - 2) := by
+        rw [← Nat.mul_add]; congr 1; omega
+      rw [this, Nat.pow_add]; ring
+  | large ws =>
+    have hw := hm.large_words
+    simp only [TRepr.setBit, TRepr.value_large]
+    split
+    · rename_i hk
+      have hx : ws.getD (n / W) 0 ||| 2 ^ (n % W) < 2 ^ W := Nat.or_lt_two_pow (hw.getD _) hbit
+      refine ⟨?_, fromBuffer_canon W _ (hw.set _ _ hx)⟩
+      have ⟨e1, e2⟩ := val_set W ws (n / W) (ws.getD (n / W) 0 ||| 2 ^ (n % W)) hk
+      have hlt := val_lt W _ (hw.take (n / W))
+      have hl : (ws.take (n / W)).length = n / W := by
+        simp [List.length_take, Nat.min_eq_left (Nat.le_of_lt hk)]
+      rw [hl] at hlt
+      rw [fromBuffer_value, e1]
+      conv => rhs; rw [e2, two_pow_split W n]
+      rw [or_cons (W * (n / W)) _ 0 _ _ hlt (Nat.two_pow_pos _), or_cons W _ _ _ 0 (hw.getD _) hbit]
+      simp
+    · rename_i hk
+      have hge : ws.length ≤ n / W := Nat.le_of_not_lt hk
+      refine ⟨?_, fromBuffer_canon W _ (IsWords.append (IsWords.append hw
+        (isWords_replicate W _ 0 (Nat.two_pow_pos W))) (isWords_singleton W _ hbit))⟩
+      have hlt := val_lt W ws hw
+      have hle : 2 ^ (W * ws.length) ≤ 2 ^ n := by
+        apply Nat.pow_le_pow_right (by omega)
+        calc W * ws.length ≤ W * (n / W) := Nat.mul_le_mul_left _ hge
+          _ ≤ n := Nat.mul_div_le n W
+      rw [fromBuffer_value, List.append_assoc, val_append, val_replicate_append]
+      simp only [val_cons, val_nil, Nat.mul_zero, Nat.add_zero]
+      rw [or_two_pow_of_lt _ n (by omega), ← pow_div_mod W n]
+      have : W * (n / W) = W * ws.length + W * (n / W - ws.length) := by
+        rw [← Nat.mul_add]; congr 1; omega
+      rw [this, Nat.pow_add]; ring
+
+/-- `clear_bit(n)`: the result is `x & !2^n` -/
+theorem TRepr.clearBit_spec (W : Nat) (hW : 1 ≤ W) (m : TRepr) (n : Nat) (hm : m.Canon W) :
+    (m.clearBit W n).value W = natAndNot (m.value W) (2 ^ n) ∧ (m.clearBit W n).Canon W := by
+  have hs : n % W < W := Nat.mod_lt _ (by omega)
+  have hbit : 2 ^ (n % W) < 2 ^ W := Nat.pow_lt_pow_right (by omega) hs
+  cases m with
+  | small d =>
+    have hd : d < 2 ^ (2 * W) := hm
+    simp only [TRepr.clearBit]
+    split
+    · rename_i h
+      have h2 : 2 ^ n < 2 ^ (2 * W) := Nat.pow_lt_pow_right (by omega) h
+      refine ⟨?_, Nat.lt_of_le_of_lt Nat.and_le_left hd⟩
+      simp only [TRepr.value_small]
+      rw [natAndNot_mod_of_lt d (2 ^ n) _ hd, Nat.mod_eq_of_lt h2]
+    · rename_i h
+      have hle : 2 ^ (2 * W) ≤ 2 ^ n := Nat.pow_le_pow_right (by omega) (by omega)
+      exact ⟨(natAndNot_two_pow_of_lt d n (by omega)).symm, hd⟩
+  | large ws =>
+    have hw := hm.large_words
+    simp only [TRepr.clearBit, TRepr.value_large]
+    split
+    · rename_i hk
+      have hx : ws.getD (n / W) 0 &&& wnot W (2 ^ (n % W)) < 2 ^ W :=
+        Nat.lt_of_le_of_lt Nat.and_le_left (hw.getD _)
+      refine ⟨?_, fromBuffer_canon W _ (hw.set _ _ hx)⟩
+      have ⟨e1, e2⟩ := val_set W ws (n / W) (ws.getD (n / W) 0 &&& wnot W (2 ^ (n % W))) hk
+      have hlt := val_lt W _ (hw.take (n / W))
+      have hl : (ws.take (n / W)).length = n / W := by
+        simp [List.length_take, Nat.min_eq_left (Nat.le_of_lt hk)]
+      rw [hl] at hlt
+      rw [fromBuffer_value, e1]
+      conv => rhs; rw [e2, two_pow_split W n]
+      rw [andNot_cons (W * (n / W)) _ 0 _ _ hlt (Nat.two_pow_pos _), andNot_cons W _ _ _ 0 (hw.getD _) hbit]
+      have hz : wnot (W * (n / W)) 0 = 2 ^ (W * (n / W)) - 1 := by simp [wnot]
+      rw [hz, Nat.and_two_pow_sub_one_eq_mod, Nat.mod_eq_of_lt hlt, natAndNot_zero_right]
+    · rename_i hk
+      have hge : ws.length ≤ n / W := Nat.le_of_not_lt hk
+      refine ⟨?_, fromBuffer_canon W _ hw⟩
+      have hlt := val_lt W ws hw
+      have hle : 2 ^ (W * ws.length) ≤ 2 ^ n := by
+        apply Nat.pow_le_pow_right (by omega)
+        calc W * ws.length ≤ W * (n / W) := Nat.mul_le_mul_left _ hge
+          _ ≤ n := Nat.mul_div_le n W
+      rw [fromBuffer_value, natAndNot_two_pow_of_lt _ n (by omega)]
+
+-- ================================================================== is_power_of_two
+
+theorem isPow2Nat_iff (n : Nat) : isPow2Nat n = true ↔ ∃ k, n = 2 ^ k := by
+  unfold isPow2Nat
+  by_cases h0 : n = 0
+  · subst h0
+    simp
+    intro k hk
+    have := Nat.two_pow_pos k; omega
+  · have := Nat.and_sub_one_eq_zero_iff_isPowerOfTwo h0
+    simp only [Nat.isPowerOfTwo] at this
+    simp [h0, this]
+
+theorem all_zero_iff (W : Nat) (l : List Nat) : l.all (· == 0) = true ↔ val W l = 0 := by
+  have := any_ne_zero W l
+  constructor
+  · intro h
+    by_contra hc
+    have hany : l.any (· != 0) = true := by rw [this]; simpa using hc
+    rw [List.any_eq_true] at hany
+    obtain ⟨x, hx, hne⟩ := hany
+    rw [List.all_eq_true] at h
+    have := h x hx
+    simp_all
+  · intro h
+    rw [List.all_eq_true]
+    intro x hx
+    by_contra hc
+    have hany : l.any (· != 0) = true := by
+      rw [List.any_eq_true]; exact ⟨x, hx, by simpa using hc⟩
+    rw [this, h] at hany
+    simp at hany
+
+/-- `is_power_of_two` holds exactly for the powers of two -/
+theorem TRepr.isPow2_spec (W : Nat) (m : TRepr) (hm : m.Canon W) :
+    m.isPow2 W = true ↔ ∃ k, m.value W = 2 ^ k := by
+  cases m with
+  | small d => exact isPow2Nat_iff d
+  | large ws =>
+    obtain ⟨h3, hw, hlast⟩ := hm
+    have hne : ws ≠ [] := by intro e; subst e; simp at h3
+    have hsplit := val_dropLast_getLast W ws hne
+    have hlow : val W ws.dropLast < 2 ^ (W * (ws.length - 1)) := by
+      have := val_lt W _ (show IsWords W ws.dropLast from fun x hx => hw x (List.dropLast_subset ws hx))
+      simpa [List.length_dropLast] using this
+    have htop : ws.getLastD 0 ≠ 0 := by
+      rw [List.getLastD_eq_getLast?]
+      rw [List.getLast?_eq_some_getLast hne] at hlast ⊢
+      simpa using hlast
+    simp only [TRepr.isPow2, TRepr.value_large, Bool.and_eq_true, all_zero_iff W, isPow2Nat_iff]
+    generalize ws.getLastD 0 = t at *
+    generalize val W ws.dropLast = lo at *
+    generalize W * (ws.length - 1) = K at *
+    constructor
+    · rintro ⟨h0, k, hk⟩
+      exact ⟨K + k, by rw [hsplit, h0, hk, Nat.pow_add]; simp⟩
+    · rintro ⟨k, hk⟩
+      have hp := Nat.two_pow_pos K
+      have hge : 2 ^ K ≤ val W ws := by
+        rw [hsplit]
+        calc 2 ^ K = 2 ^ K * 1 := by simp
+          _ ≤ 2 ^ K * t := Nat.mul_le_mul_left _ (by omega)
+          _ ≤ _ := Nat.le_add_left _ _
+      have hKk : K ≤ k := by
+        rw [hk] at hge
+        exact (Nat.pow_le_pow_iff_right (by omega : 1 < 2)).mp hge
+      have hmod : val W ws % 2 ^ K = lo := by
+        rw [hsplit, Nat.add_mul_mod_self_left, Nat.mod_eq_of_lt hlow]
+      have hk' : (2 : Nat) ^ k = 2 ^ K * 2 ^ (k - K) := by
+        rw [← Nat.pow_add]; congr 1; omega
+      have hlo0 : lo = 0 := by
+        rw [← hmod, hk, hk', Nat.mul_mod_right]
+      refine ⟨hlo0, k - K, ?_⟩
+      rw [hlo0, Nat.zero_add, hk, hk'] at hsplit
+      exact (Nat.eq_of_mul_eq_mul_left hp hsplit).symm
+
+theorem specIsPow2_iff (n : Nat) : specIsPow2 n = true ↔ ∃ k, n = 2 ^ k := by
+  unfold specIsPow2
+  constructor
+  · intro h; exact ⟨_, by simpa using h⟩
+  · rintro ⟨k, rfl⟩; simp [Nat.log2_two_pow]
+
+
+-- ================================================================== count_ones / count_zeros
+
+theorem popWord_zero (f : Nat) : popWord f 0 = 0 := by
+  induction f with
+  | zero => rfl
+  | succ f ih => simp [popWord, ih]
+
+theorem popWord_le (f n : Nat) : popWord f n ≤ f := by
+  induction f generalizing n with
+  | zero => simp [popWord]
+  | succ f ih =>
+    simp only [popWord]
+    have := ih (n / 2)
+    omega
+
+theorem popWord_add (f g a x : Nat) (ha : a < 2 ^ f) :
+    popWord (f + g) (a + 2 ^ f * x) = popWord f a + popWord g x := by
+  induction f generalizing a with
+  | zero =>
+    have : a = 0 := by simpa using ha
+    subst this; simp [popWord]
+  | succ f ih =>
+    have hfg : f + 1 + g = (f + g) + 1 := by omega
+    rw [hfg]
+    simp only [popWord]
+    have h2 : 2 ^ (f + 1) * x = 2 * (2 ^ f * x) := by rw [Nat.pow_succ]; ring
+    have hmod : (a + 2 ^ (f + 1) * x) % 2 = a % 2 := by rw [h2]; omega
+    have hdiv : (a + 2 ^ (f + 1) * x) / 2 = a / 2 + 2 ^ f * x := by rw [h2]; omega
+    rw [hmod, hdiv, ih (a / 2) (by rw [Nat.pow_succ] at ha; omega)]
+    omega
+
+theorem popWord_stable (f g n : Nat) (h : n < 2 ^ f) : popWord (f + g) n = popWord f n := by
+  have := popWord_add f g n 0 h
+  simpa [popWord_zero] using this
+
+theorem popWord_eq_popNat (f n : Nat) (h : n < 2 ^ f) : popWord f n = popNat n := by
+  unfold popNat
+  have hb := bitLenNat_le n f h
+  have h1 := (bitLenNat_spec n).1
+  have := popWord_stable (bitLenNat n) (f - bitLenNat n) n h1
+  rw [show bitLenNat n + (f - bitLenNat n) = f by omega] at this
+  exact this
+
+theorem popNat_le_bitLen (n : Nat) : popNat n ≤ bitLenNat n := popWord_le _ _
+
+theorem sum_popWord (W : Nat) (ws : List Nat) (hw : IsWords W ws) :
+    (ws.map (popWord W)).sum = popWord (W * ws.length) (val W ws) := by
+  induction ws with
+  | nil => simp [popWord]
+  | cons w ws ih =>
+    simp only [List.map_cons, List.sum_cons, List.length_cons, val_cons, ih hw.tail]
+    rw [show W * (ws.length + 1) = W + W * ws.length by ring, popWord_add W _ w _ hw.head]
+
+/-- `count_ones` = number of one bits of the value -/
+theorem TRepr.countOnes_spec (W : Nat) (m : TRepr) (hm : m.Canon W) :
+    m.countOnes W = popNat (m.value W) := by
+  cases m with
+  | small d => exact popWord_eq_popNat (2 * W) d hm
+  | large ws =>
+    simp only [TRepr.countOnes, TRepr.value_large]
+    rw [sum_popWord W ws hm.large_words]
+    exact popWord_eq_popNat _ _ (val_lt W ws hm.large_words)
+
+theorem sum_sub_popWord (W : Nat) (ws : List Nat) :
+    (ws.map (fun w => W - popWord W w)).sum + (ws.map (popWord W)).sum = W * ws.length := by
+  induction ws with
+  | nil => simp
+  | cons w ws ih =>
+    simp only [List.map_cons, List.sum_cons, List.length_cons]
+    have := popWord_le W w
+    rw [Nat.mul_succ]; omega
+
+/-- `count_zeros` = `bit_len - count_ones` (`None` for 0) -/
+theorem TRepr.countZeros_spec (W : Nat) (m : TRepr) (hm : m.Canon W) :
+    m.countZeros W = if m.value W = 0 then none else some (bitLenNat (m.value W) - popNat (m.value W)) := by
+  cases m with
+  | small d =>
+    have hd : d < 2 ^ (2 * W) := hm
+    simp only [TRepr.countZeros, TRepr.value_small]
+    split
+    · rename_i h0; simp [h0]
+    · rename_i h0
+      have h1 := popWord_eq_popNat (2 * W) d hd
+      have h2 := popNat_le_bitLen d
+      have h3 := bitLenNat_le d _ hd
+      have h4 := popWord_le (2 * W) d
+      rw [h1] at h4 ⊢
+      simp only [h0, if_false]
+      congr 1; omega
+  | large ws =>
+    have hpos : val W ws ≠ 0 := by
+      have := hm.large_ge; have := Nat.two_pow_pos (2 * W); omega
+    have hbl := TRepr.bitLen_spec W (.large ws) hm
+    have hco := TRepr.countOnes_spec W (.large ws) hm
+    simp only [TRepr.bitLen, TRepr.countOnes, TRepr.value_large] at hbl hco
+    simp only [TRepr.countZeros, TRepr.value_large, hpos, if_false]
+    have hsum := sum_sub_popWord W ws
+    have hle := popNat_le_bitLen (val W ws)
+    rw [hco] at hsum
+    rw [← hbl] at hle ⊢
+    have hbw : bitLenNat (ws.getLastD 0) ≤ W := by
+      have hne : ws ≠ [] := by intro e; subst e; have := hm.large_len; simp at this
+      apply bitLenNat_le
+      rw [List.getLastD_eq_getLast?, List.getLast?_eq_some_getLast hne]
+      exact hm.large_words _ (List.getLast_mem hne)
+    rw [Nat.mul_comm] at hsum
+    congr 1; omega
+
+-- ================================================================== trailing ones of a negative number
+
+theorem IsTz.compl {N y k : Nat} (hy : 0 < y) (hlt : y < 2 ^ N) (h : IsTz (2 ^ N - y) k) : IsTz y k := by
+  have hkN : k < N := by
+    have := h.pow_le
+    exact (Nat.pow_lt_pow_iff_right (by omega : 1 < 2)).mp (by omega)
+  obtain ⟨h1, h2⟩ := h
+  have hdm := Nat.div_add_mod (2 ^ N - y) (2 ^ k)
+  rw [h1, Nat.add_zero] at hdm
+  generalize (2 ^ N - y) / 2 ^ k = q at *
+  have hs : 2 ^ N = 2 ^ k * (2 * 2 ^ (N - k - 1)) := by
+    rw [← Nat.pow_succ', ← Nat.pow_add]; congr 1; omega
+  have hp := Nat.two_pow_pos k
+  have hy' : y = 2 ^ k * (2 * 2 ^ (N - k - 1) - q) := by
+    rw [Nat.mul_sub, ← hs, hdm]; omega
+  have hq : q < 2 * 2 ^ (N - k - 1) := by
+    have : 2 ^ k * q < 2 ^ k * (2 * 2 ^ (N - k - 1)) := by rw [← hs, hdm]; omega
+    exact Nat.lt_of_mul_lt_mul_left this
+  refine ⟨?_, ?_⟩
+  · rw [hy']; exact Nat.mul_mod_right _ _
+  · rw [hy', Nat.mul_div_cancel_left _ hp]; omega
+
+theorem val_mod_two (W : Nat) (hW : 1 ≤ W) (w : Nat) (ws : List Nat) :
+    val W (w :: ws) % 2 = w % 2 ∧ val W (w :: ws) / 2 = w / 2 + 2 ^ (W - 1) * val W ws := by
+  have : 2 ^ W = 2 * 2 ^ (W - 1) := by rw [← Nat.pow_succ']; congr 1; omega
+  simp only [val_cons]
+  rw [this, Nat.mul_assoc]
+  constructor <;> omega
+
+theorem tzLargeShiftedByOne_spec (W : Nat) (hW : 1 ≤ W) (w : Nat) (ws : List Nat)
+    (hw : IsWords W (w :: ws)) (hrest : val W ws ≠ 0) :
+    ∃ t, tzLargeShiftedByOne W (w :: ws) = .ok t ∧ IsTz (val W (w :: ws) / 2) t := by
+  have hw0 := hw.head
+  have h2 : 2 ^ W = 2 * 2 ^ (W - 1) := by rw [← Nat.pow_succ']; congr 1; omega
+  have hhalf : w / 2 < 2 ^ (W - 1) := by omega
+  rw [(val_mod_two W hW w ws).2]
+  simp only [tzLargeShiftedByOne, List.getD_cons_zero, List.drop_succ_cons, List.drop_zero]
+  by_cases hz : w / 2 = 0
+  · -- the low word contributes W - 1 zero bits, continue in the higher words
+    have hzb : tzWord W (w / 2) = W := by simp [tzWord, hz]
+    obtain ⟨t', ht', hI⟩ := tzLarge_spec W ws hw.tail hrest
+    rw [hzb, hz, Nat.zero_add]
+    have hnot : ¬ W < W - 1 := by omega
+    simp only [hnot, if_false, ht']
+    refine ⟨t' + W - 1, rfl, ?_⟩
+    have := hI.shift (W - 1)
+    rwa [show t' + (W - 1) = t' + W - 1 by omega] at this
+  · have hI := tzWord_spec W (w / 2) hz (by omega)
+    have hlt : tzWord W (w / 2) < W - 1 := by
+      have := hI.pow_le
+      exact (Nat.pow_lt_pow_iff_right (by omega : 1 < 2)).mp (by omega)
+    simp only [hlt, if_true]
+    exact ⟨_, rfl, hI.add_high hhalf _⟩
+
+/-- `trailing_ones_neg`: trailing ones of `-v` in two's complement: `None` for `v = 1` (−1 is all
+    ones), otherwise the number of trailing zeros of `v - 1` (`-v = !(v-1)`) -/
+theorem TRepr.trailingOnesNeg_spec (W : Nat) (hW : 1 ≤ W) (m : TRepr) (hm : m.Canon W)
+    (hz : m.value W ≠ 0) :
+    (m.value W = 1 → m.trailingOnesNeg W = .ok none) ∧
+    (2 ≤ m.value W → ∃ k, m.trailingOnesNeg W = .ok (some k) ∧ IsTz (m.value W - 1) k) := by
+  cases m with
+  | small d =>
+    have hd : d < 2 ^ (2 * W) := hm
+    simp only [TRepr.value_small] at hz ⊢
+    simp only [TRepr.trailingOnesNeg, hz, if_false]
+    refine ⟨fun h => by simp [h], fun h => ?_⟩
+    have h1 : d ≠ 1 := by omega
+    simp only [h1, if_false]
+    refine ⟨_, rfl, ?_⟩
+    have hp := Nat.two_pow_pos (2 * W)
+    have := toWord_spec (2 * W) (2 ^ (2 * W) - d) (by omega)
+    rw [show 2 ^ (2 * W) - d + 1 = 2 ^ (2 * W) - (d - 1) by omega] at this
+    exact this.compl (by omega) (by omega)
+  | large ws =>
+    have hge := hm.large_ge
+    have hbig : 2 ≤ val W ws := by
+      have : 2 ≤ 2 ^ (2 * W) := by
+        calc 2 = 2 ^ 1 := rfl
+          _ ≤ 2 ^ (2 * W) := Nat.pow_le_pow_right (by omega) (by omega)
+      omega
+    simp only [TRepr.value_large] at hz ⊢
+    refine ⟨fun h => by omega, fun _ => ?_⟩
+    obtain ⟨w, rest, rfl⟩ : ∃ w rest, ws = w :: rest := by
+      cases ws with
+      | nil => have := hm.large_len; simp at this
+      | cons w rest => exact ⟨w, rest, rfl⟩
+    have hw := hm.large_words
+    have ⟨hmod, hdiv⟩ := val_mod_two W hW w rest
+    simp only [TRepr.trailingOnesNeg, List.getD_cons_zero]
+    split
+    · rename_i hev
+      exact ⟨0, rfl, IsTz.zero_of_odd (by omega)⟩
+    · rename_i hodd
+      have hrest : val W rest ≠ 0 := by
+        intro h0
+        have hw0 := hw.head
+        simp only [val_cons, h0, Nat.mul_zero, Nat.add_zero] at hge
+        have : 2 ^ W ≤ 2 ^ (2 * W) := Nat.pow_le_pow_right (by omega) (by omega)
+        omega
+      obtain ⟨t, ht, hI⟩ := tzLargeShiftedByOne_spec W hW w rest hw hrest
+      rw [ht]
+      refine ⟨t + 1, rfl, ?_⟩
+      have := hI.double
+      rwa [show 2 * (val W (w :: rest) / 2) = val W (w :: rest) - 1 by omega] at this
+
+
+-- ================================================================== next_power_of_two
+
+/-- `r` is the least power of two that is `≥ v` -/
+def IsNextPow2 (v r : Nat) : Prop := (∃ k, r = 2 ^ k) ∧ v ≤ r ∧ ∀ j, v ≤ 2 ^ j → r ≤ 2 ^ j
+
+theorem IsNextPow2.unique {v r r' : Nat} (h : IsNextPow2 v r) (h' : IsNextPow2 v r') : r = r' := by
+  obtain ⟨⟨k, hk⟩, h1, h2⟩ := h
+  obtain ⟨⟨k', hk'⟩, h1', h2'⟩ := h'
+  have a := h2 k' (hk' ▸ h1')
+  have b := h2' k (hk ▸ h1)
+  omega
+
+/-- the closed form used by `checked_next_power_of_two` -/
+def np2 (v : Nat) : Nat := if v ≤ 1 then 1 else 2 ^ bitLenNat (v - 1)
+
+theorem np2_spec (v : Nat) : IsNextPow2 v (np2 v) := by
+  unfold np2
+  split
+  · rename_i h
+    exact ⟨⟨0, rfl⟩, h, fun j _ => Nat.one_le_two_pow⟩
+  · rename_i h
+    have h1 := (bitLenNat_spec (v - 1)).1
+    refine ⟨⟨_, rfl⟩, by omega, fun j hj => ?_⟩
+    exact Nat.pow_le_pow_right (by omega) (bitLenNat_le (v - 1) j (by
+      have := Nat.two_pow_pos j; omega))
+
+theorem specNextPow2_eq (v : Nat) : specNextPow2 v = np2 v := by
+  unfold specNextPow2 np2 bitLenNat
+  split
+  · rfl
+  · rename_i h
+    have : v - 1 ≠ 0 := by omega
+    simp [this]
+
+theorem checkedNextPow2_eq (bits n : Nat) :
+    checkedNextPow2 bits n = if np2 n < 2 ^ bits then some (np2 n) else none := by
+  unfold checkedNextPow2 np2; rfl
+
+/-- next power of two of `lo + 2^K * top` with `lo < 2^K`, `top ≥ 1` -/
+theorem np2_split (K lo top : Nat) (hlo : lo < 2 ^ K) (htop : 1 ≤ top) :
+    IsNextPow2 (lo + 2 ^ K * top) (2 ^ K * np2 (top + (if lo = 0 then 0 else 1))) := by
+  have hp := Nat.two_pow_pos K
+  generalize hx : top + (if lo = 0 then 0 else 1) = x
+  obtain ⟨⟨k, hk⟩, hx1, hx2⟩ := np2_spec x
+  refine ⟨⟨K + k, by rw [hk, Nat.pow_add]⟩, ?_, fun j hj => ?_⟩
+  · -- upper bound
+    have : lo + 2 ^ K * top ≤ 2 ^ K * x := by
+      rw [← hx]
+      by_cases h0 : lo = 0
+      · simp [h0]
+      · simp only [h0, if_false, Nat.mul_add, Nat.mul_one]; omega
+    exact Nat.le_trans this (Nat.mul_le_mul_left _ hx1)
+  · -- minimality
+    have hge : 2 ^ K ≤ lo + 2 ^ K * top := by
+      calc 2 ^ K = 2 ^ K * 1 := by simp
+        _ ≤ 2 ^ K * top := Nat.mul_le_mul_left _ htop
+        _ ≤ _ := Nat.le_add_left _ _
+    have hKj : K ≤ j := (Nat.pow_le_pow_iff_right (by omega : 1 < 2)).mp (Nat.le_trans hge hj)
+    have hj' : (2 : Nat) ^ j = 2 ^ K * 2 ^ (j - K) := by rw [← Nat.pow_add]; congr 1; omega
+    rw [hj'] at hj ⊢
+    apply Nat.mul_le_mul_left
+    apply hx2
+    rw [← hx]
+    by_cases h0 : lo = 0
+    · simp only [h0, if_true, Nat.add_zero, Nat.zero_add] at hj ⊢
+      exact Nat.le_of_mul_le_mul_left hj hp
+    · simp only [h0, if_false]
+      have : 2 ^ K * top < 2 ^ K * 2 ^ (j - K) := by omega
+      have := Nat.lt_of_mul_lt_mul_left this
+      omega
+
+theorem np2_le_of_le (v j : Nat) (h : v ≤ 2 ^ j) : np2 v ≤ 2 ^ j := (np2_spec v).2.2 j h
+
+/-- `next_power_of_two`: the least power of two `≥ x`, canonical -/
+theorem TRepr.nextPow2_spec (W : Nat) (hW : 1 ≤ W) (m : TRepr) (hm : m.Canon W) :
+    (m.nextPow2 W).value W = np2 (m.value W) ∧ (m.nextPow2 W).Canon W := by
+  have hpW := Nat.two_pow_pos W
+  cases m with
+  | small d =>
+    have hd : d < 2 ^ (2 * W) := hm
+    simp only [TRepr.nextPow2, checkedNextPow2_eq, TRepr.value_small]
+    split
+    · rename_i p hp
+      split at hp
+      · rename_i hlt; cases hp; exact ⟨rfl, hlt⟩
+      · cases hp
+    · rename_i hp
+      split at hp
+      · cases hp
+      · rename_i hge
+        have hle := np2_le_of_le d (2 * W) (Nat.le_of_lt hd)
+        have h1 : (1 : Nat) < 2 ^ W := Nat.one_lt_two_pow (by omega)
+        refine ⟨?_, fromBuffer_canon W _ (IsWords.cons hpW (IsWords.cons hpW (isWords_singleton W 1 h1)))⟩
+        rw [fromBuffer_value]
+        simp only [val_cons, val_nil, Nat.mul_zero, Nat.add_zero, Nat.zero_add, Nat.mul_one]
+        rw [← two_pow_two_mul]; omega
+  | large ws =>
+    obtain ⟨h3, hw, hlast⟩ := hm
+    have hne : ws ≠ [] := by intro e; subst e; simp at h3
+    have hsplit := val_dropLast_getLast W ws hne
+    have hlow : val W ws.dropLast < 2 ^ (W * (ws.length - 1)) := by
+      have := val_lt W _ (show IsWords W ws.dropLast from fun x hx => hw x (List.dropLast_subset ws hx))
+      simpa [List.length_dropLast] using this
+    have htop : ws.getLastD 0 ≠ 0 := by
+      rw [List.getLastD_eq_getLast?]
+      rw [List.getLast?_eq_some_getLast hne] at hlast ⊢
+      simpa using hlast
+    have htopw : ws.getLastD 0 < 2 ^ W := by
+      rw [List.getLastD_eq_getLast?, List.getLast?_eq_some_getLast hne]
+      exact hw _ (List.getLast_mem hne)
+    have hcarry : (if ws.dropLast.all (· == 0) = true then 0 else 1)
+        = (if val W ws.dropLast = 0 then 0 else 1) := by
+      by_cases h : val W ws.dropLast = 0
+      · simp [(all_zero_iff W _).mpr h, h]
+      · have : ¬ ws.dropLast.all (· == 0) = true := fun h' => h ((all_zero_iff W _).mp h')
+        simp [this, h]
+    have hspl := np2_split (W * (ws.length - 1)) (val W ws.dropLast) (ws.getLastD 0) hlow (by omega)
+    rw [← hsplit] at hspl
+    have huniq := (np2_spec (val W ws)).unique hspl
+    have hxle : ws.getLastD 0 + (if val W ws.dropLast = 0 then 0 else 1) ≤ 2 ^ W := by
+      split <;> omega
+    simp only [TRepr.nextPow2, nextPow2Large, TRepr.value_large, hcarry, List.length_dropLast,
+      checkedNextPow2_eq]
+    rw [huniq]
+    generalize ws.getLastD 0 + (if val W ws.dropLast = 0 then 0 else 1) = x at *
+    have hnle := np2_le_of_le x W hxle
+    have hxn := (np2_spec x).2.1
+    have hz := isWords_replicate W (ws.length - 1) 0 hpW
+    by_cases hA : x < 2 ^ W ∧ np2 x < 2 ^ W
+    · simp only [hA.1, hA.2, if_true]
+      refine ⟨?_, fromBuffer_canon W _ (IsWords.append hz (isWords_singleton W _ hA.2))⟩
+      rw [fromBuffer_value, val_replicate_append]; simp
+    · have hnp : np2 x = 2 ^ W := by
+        by_cases h1 : x < 2 ^ W
+        · have : ¬ np2 x < 2 ^ W := fun h => hA ⟨h1, h⟩
+          omega
+        · omega
+      have h1 : (1 : Nat) < 2 ^ W := Nat.one_lt_two_pow (by omega)
+      have hnone : (if x < 2 ^ W then (if np2 x < 2 ^ W then some (np2 x) else none) else none) = none := by
+        by_cases h1 : x < 2 ^ W
+        · have : ¬ np2 x < 2 ^ W := fun h => hA ⟨h1, h⟩
+          simp [h1, this]
+        · simp [h1]
+      rw [hnone]
+      refine ⟨?_, fromBuffer_canon W _ (IsWords.append hz (IsWords.cons hpW (isWords_singleton W 1 h1)))⟩
+      rw [fromBuffer_value, val_replicate_append, hnp]; simp
+
 end Dashu.Model
